@@ -136,6 +136,45 @@ func VerifC11_WeightsSecondTick() {
 	zz.Assert("C11.weights2.second_tick_uses_its_own_window", out == int(zz.FloorUF(withRem)))
 }
 
+// VerifC11_WindowPosition: "peaks on time" — the position inside the repeat window that is fed to the density, and
+// the window's index inside the weight cycle, for repeat windows that do NOT divide the distance between Go's zero
+// time and the Unix epoch (7 h, 168 h, 35 s) as well as one that does (24 h): with windows aligned the way
+// Time.Truncate aligns them (multiples of the window since Go's zero time; for whole hours/days that is the UTC
+// hour/midnight grid), at any instant the slot is (instant - start of its window) and the weight index is the number
+// of whole windows since the start of the weight cycle — so the weight switches exactly where the slot wraps to 0.
+// The reference is plain second/nanosecond arithmetic, not Time.Truncate. Float operators are uninterpreted: the
+// claim is "the documented formula applied to exactly this slot and this weight".
+//
+//verif:fp uf
+//verif:ints math
+//verif:unroll 6
+func VerifC11_WindowPosition() {
+	n := zz.Choice("nweights", 3) + 1
+	ws := make([]float64, n)
+	for i := 0; i < n; i++ {
+		ws[i] = zz.Float64("w", i)
+	}
+	c := c11Calculator("a", ws)
+	c.averageWeight = zz.Float64("avgw")
+	wsec := []int64{24 * 3600, 7 * 3600, 168 * 3600, 35}[zz.Choice("window", 4)]
+	c.repeatWindow = time.Duration(wsec) * time.Second
+	now := zz.Int64("now")
+	zz.Assume(now >= 0)
+	zz.Assume(now < 1<<55)
+	rem0 := c.remainder
+	out := c.For(zz.Time(now))
+	// reference position: seconds since Go's zero time (62135596800 s before the Unix epoch), modulo the weight cycle
+	pos := (now/1_000_000_000 + 62135596800) % (wsec * int64(n))
+	idx := int(pos / wsec)
+	slotNs := (pos%wsec)*1_000_000_000 + now%1_000_000_000
+	rate := c.dist.PDF(float64(slotNs)) * c.multiplier
+	rate = rate * ws[idx] / c.averageWeight
+	withRem := rate + rem0
+	zz.Cover("C11.position.reached")
+	zz.CoverIf("C11.position.last_index_of_a_week_window", idx == n-1 && n > 1 && wsec == 168*3600)
+	zz.Assert("C11.position.slot_and_weight_of_the_current_window", out == int(zz.FloorUF(withRem)))
+}
+
 // VerifC11_Normalisation: NewCalculator's multiplier times the probability mass inside [0, window - frequency]
 // equals volume * frequency (exactly, in real arithmetic with CDF/Erfc uninterpreted), sigma <= 0 is rejected, and
 // the mean weight is the arithmetic mean of the weights.
